@@ -191,6 +191,18 @@ func init() {
 		Models:      []string{"as C02; documents are served as abstract JSON texts with a symbolic member name"},
 	})
 	reg(&PropSpec{
+		ID: "C19", Prefix: "vh_C19_",
+		Quick:    Tier{Params: map[string]int{"free": 1, "ref_children": 1, "exts": 1, "extras": 0, "name_len": 1, "sizes": 1, "any_shapes": 1, "vary": 0}},
+		Thorough: Tier{Params: map[string]int{"free": 1, "ref_children": 1, "exts": 1, "extras": 1, "name_len": 1, "sizes": 1, "any_shapes": 2, "vary": 1, "vary_points": 60, "vary_alts": 4}},
+		Bounds: []string{
+			"per kind (16): the symbolic document of C01 in free form - required and optional strings may be empty, booleans take both values, string arrays and scope maps may be empty, every keyword's presence symbolic; validity against the shipped meta-schema (schemas/v2/schema.json + draft-04, compiled at check time into a solver predicate: type, enum, required, properties, patternProperties, additionalProperties, items, minItems, minProperties, oneOf/anyOf/allOf/not, $ref) is assumed for the input and asserted for the output of decode/encode",
+			"every witness is re-judged by python jsonschema Draft4Validator in the native replay (input valid, output invalid)",
+		},
+		Outside:     []string{"the expansion half of the property (valid input => valid expanded output) is not claimed: see DESIGN", "format and uniqueItems are not checked (as a Draft4Validator without format checker does for format)", "deeper nesting"},
+		Assumptions: []string{"children are minimal valid documents of their kind"},
+		Models:      []string{"M-json", "meta-schema interpreter (internal/engine/jsonschema.go) cross-checked by python jsonschema on every witness"},
+	})
+	reg(&PropSpec{
 		ID: "C11", Prefix: "vh_C11_",
 		Quick:    Tier{Params: map[string]int{"segs": 2, "seg_len": 2}},
 		Thorough: Tier{Params: map[string]int{"segs": 3, "seg_len": 2}},
